@@ -115,8 +115,10 @@ def encode_R(rng, vals):
     return out
 
 
-def draw_af(rng):
-    return rng.choice([1.0, 1.0, 0.9, 0.75, 0.5, round(rng.uniform(0.05, 1.0), 4)])
+def draw_af(rng, zero_ok=False):
+    # 0.0: an all-outage (decay only) cycle is a legal boundary of the simple inputs (schema Range(min=0)); the detailed "cycles" input
+    # derives the cycle length as sum(steps) / availability, so zero is outside its domain (armi raises ZeroDivisionError)
+    return rng.choice([1.0, 1.0, 0.9, 0.75, 0.5, round(rng.uniform(0.05, 1.0), 4)] + ([0.0] if zero_ok else []))
 
 
 def draw_pf(rng):
@@ -148,10 +150,10 @@ def gen_history(rng, kind):
             lens = [L] * nC
             S["cycleLength"] = L
         if rng.random() < 0.5:
-            afs = rand_series(rng, nC, lambda: draw_af(rng))
+            afs = rand_series(rng, nC, lambda: draw_af(rng, True))
             S["availabilityFactors"] = encode_R(rng, afs)
         else:
-            a = draw_af(rng)
+            a = draw_af(rng, True)
             afs = [a] * nC
             S["availabilityFactor"] = a
         r = rng.random()
